@@ -128,7 +128,8 @@ def _make_authenticator():
     def token_authenticator(sock):
         """reads exactly 8 bytes (2 s socket timeout); wrong, short or late token -> AuthenticationError"""
         old = sock.gettimeout()
-        sock.settimeout(2.0)
+        # RV_AUTH_PATIENT: no limit on how long a client may take to present its token (a handshake-style authenticator)
+        sock.settimeout(None if os.environ.get("RV_AUTH_PATIENT") == "1" else 2.0)
         try:
             buf = b""
             while len(buf) < len(TOKEN):
@@ -493,6 +494,7 @@ class ServerProc(object):
         env["PYTHONPATH"] = repo_dir() + os.pathsep + LIB
         env["PYTHONDONTWRITEBYTECODE"] = "1"
         env["RV_AUTH_REWRAP"] = "1" if auth == "rewrap" else "0"
+        env["RV_AUTH_PATIENT"] = "1" if auth == "patient" else "0"
         cmd = [sys.executable, "-u", os.path.abspath(__file__).replace(".pyc", ".py"), "serve", kind, "--scratch", self.scratch]
         if auth:
             cmd.append("--auth")
